@@ -41,7 +41,7 @@ type ProgCase struct {
 	Singletons map[string]hs.WV `json:",omitempty"`
 	AnyVals    []hs.WV          `json:",omitempty"`
 	Limits     sb.Limits
-	Expect     *Exp `json:",omitempty"`
+	Expect     *Exp   `json:",omitempty"`
 	Note       string `json:",omitempty"`
 }
 
